@@ -52,6 +52,13 @@ CHECKS["C03"] = dict(
     ref="5/C03",
 )
 
+CHECKS["C13"] = dict(
+    technique="TLA+ model of the cu2qu search protocol (Cu2Qu.tla) checked by TLC for every Fits table; TLC-exported behaviours replayed into the real functions; dyadic geometric contract (end points, Bernstein certificate, sampled Hausdorff lower bounds) judged by TLC on recorded outputs",
+    text="TLC checks the n/i/last_i/MAX_N loop of curve(s)_to_quadratic for every Fits table (3 curves, MAX_N scaled to 4: SameN, Minimality, RaiseNotWorse, Termination) and replays every terminated behaviour into the real functions; recorded outputs of curve_to_quadratic, curves_to_quadratic, the Cu2Qu pens, glyphs_to_quadratic, quadratic_to_curves and Qu2CuPen on lattice cubics (all degeneracy classes) x tolerances x all_quadratic, real-valued curves, inputs that exhaust MAX_N and boundary tolerances are judged in exact dyadic arithmetic: end points exact, every spline piece certified by a Bernstein bound or sampled with a sound distance lower bound, same segment count across masters, error raised only when no n fits.",
+    note="Trusted: TLC, float->dyadic conversion with logged slack. Acceptance is evidence at sampled parameters plus the certificate, not a proof over the continuum; rejection is always a real violation. Fits is observed through cubic_approx_spline in the pure-Python build.",
+    ref="5/C13 and 6",
+)
+
 NOT_YET = "check not built yet in this round (see DESIGN.md section 10 for the build order)"
 
 
